@@ -392,6 +392,15 @@ def cloneBare (o : ObjDump) : ObjDump := bare o.body
 def maskRaw : MaskD → RawMask
   | .scalar b => .bool b | .npbool b => .bool b | .array s b w => .arr s b w | .other => .bad
 
+/-- the twin built by the `wod` property for an object WITH derivatives: `wod.__init__(self._values_, self._mask_,
+    example=self)` and then every attribute copied over.  The constructor call has one lasting effect: when the
+    values array is not writable it freezes the mask array it was handed, which is the object's own mask. -/
+def wodBody (b : Body) : Body :=
+  if b.varr && !b.vwritable then { b with mask := maskToReadonly b.mask } else b
+
+/-- `obj.wod` as used by insert_deriv: the object itself (no derivatives; a shallow copy is stored later) or the twin -/
+def wodOf (o : ObjDump) : ObjDump := bare (if o.derivs.isEmpty then o.body else wodBody o.body)
+
 /-- qube.py:2099-2130 `as_float()` of an object without derivatives -/
 def asFloat (o : ObjDump) : R ObjDump :=
   if o.body.kind == .float then some o
@@ -464,7 +473,7 @@ def insertDeriv (p : ObjDump) (key : String) (d : ObjDump) (override : Bool) : R
   if bcast d.body.shape p.body.shape != some p.body.shape then none else
   if p.body.readonly && hasKey key p.derivs && !override then none else
   -- deriv.wod.as_float()
-  match asFloat (cloneBare d) with
+  match asFloat (wodOf d) with
   | none => none
   | some d1 =>
   -- broadcast to the parent's shape
@@ -538,8 +547,8 @@ def clone (o : ObjDump) (recursive : Bool) (preserve : List String) : R ObjDump 
   | (r, true) => some r
   | (_, false) => none
 
-/-- the `wod` property (qube.py) : the object itself when it has no derivatives, else `clone(recursive=False)` -/
-def wod (o : ObjDump) : ObjDump := if o.derivs.isEmpty then o else cloneBare o
+/-- the `wod` property (qube.py:1387-1412): the object itself when it has no derivatives, else a derivative-free twin -/
+def wod (o : ObjDump) : ObjDump := if o.derivs.isEmpty then o else wodOf o
 
 /-- qube.py:1665-1683 `without_deriv(key)` (repaired: goes through `delete_deriv`) -/
 def withoutDeriv (o : ObjDump) (key : String) : R ObjDump :=
